@@ -58,6 +58,24 @@ fn ctopt(o: Option<Vec<u8>>) -> Vec<Vec<u8>> {
     }
 }
 
+/// The human-readable form through serde_json's three front ends: borrowed text, a reader (owned strings), a parsed `Value`.
+fn json_dec<T: serde::de::DeserializeOwned>(c: Codec, b: &[u8]) -> R<T> {
+    match c {
+        Codec::JsonReader => serde_json::from_reader(b).map_err(e),
+        Codec::JsonValue => {
+            let v: serde_json::Value = serde_json::from_slice(b).map_err(e)?;
+            serde_json::from_value(v).map_err(e)
+        }
+        _ => serde_json::from_slice(b).map_err(e),
+    }
+}
+fn json_enc<T: serde::Serialize>(c: Codec, v: &T) -> R<Vec<u8>> {
+    match c {
+        Codec::JsonValue => serde_json::to_vec(&serde_json::to_value(v).map_err(e)?).map_err(e),
+        _ => serde_json::to_vec(v).map_err(e),
+    }
+}
+
 /// Encode / decode one data type in every codec it offers.
 trait Wire: Sized {
     fn dec(c: Codec, b: &[u8]) -> R<Self>;
@@ -75,7 +93,7 @@ macro_rules! wire_std {
                     Codec::BytesRefVec => Self::try_from(&b.to_vec()).map_err(e),
                     Codec::BytesBox => Self::try_from(b.to_vec().into_boxed_slice()).map_err(e),
                     Codec::Bare => serde_bare::from_slice(b).map_err(e),
-                    Codec::Json => serde_json::from_slice(b).map_err(e),
+                    Codec::Json | Codec::JsonReader | Codec::JsonValue => json_dec(c, b),
                     _ => Err("facade: codec not offered by this type".into()),
                 }
             }
@@ -88,7 +106,7 @@ macro_rules! wire_std {
                         Ok(Vec::from(copy))
                     }
                     Codec::Bare => serde_bare::to_vec(self).map_err(e),
-                    Codec::Json => serde_json::to_vec(self).map_err(e),
+                    Codec::Json | Codec::JsonReader | Codec::JsonValue => json_enc(c, self),
                     _ => Err("facade: codec not offered by this type".into()),
                 }
             }
@@ -109,7 +127,7 @@ macro_rules! wire_scalar {
                     Codec::BytesRefVec => Self::try_from(&b.to_vec()).map_err(e),
                     Codec::BytesBox => Self::try_from(b.to_vec().into_boxed_slice()).map_err(e),
                     Codec::Bare => serde_bare::from_slice(b).map_err(e),
-                    Codec::Json => serde_json::from_slice(b).map_err(e),
+                    Codec::Json | Codec::JsonReader | Codec::JsonValue => json_dec(c, b),
                     Codec::Be => {
                         let a: [u8; 32] = b.try_into().map_err(|_| "bad length".to_string())?;
                         Option::from(Self::from_be_bytes(&a)).ok_or_else(|| "from_be_bytes: none".to_string())
@@ -125,7 +143,7 @@ macro_rules! wire_scalar {
                     Codec::Bytes | Codec::BytesRefVec | Codec::BytesBox => Ok(Vec::from(self)),
                     Codec::BytesVec => Ok(Vec::from(self.clone())),
                     Codec::Bare => serde_bare::to_vec(self).map_err(e),
-                    Codec::Json => serde_json::to_vec(self).map_err(e),
+                    Codec::Json | Codec::JsonReader | Codec::JsonValue => json_enc(c, self),
                     Codec::Be => Ok(self.to_be_bytes().to_vec()),
                     Codec::Le => Ok(self.to_le_bytes().to_vec()),
                 }
@@ -173,7 +191,7 @@ macro_rules! wire_plain {
                     Codec::BytesRefVec => Self::try_from(&b.to_vec()).map_err(e),
                     Codec::BytesBox => Self::try_from(b.to_vec().into_boxed_slice()).map_err(e),
                     Codec::Bare => serde_bare::from_slice(b).map_err(e),
-                    Codec::Json => serde_json::from_slice(b).map_err(e),
+                    Codec::Json | Codec::JsonReader | Codec::JsonValue => json_dec(c, b),
                     _ => Err("facade: codec not offered by this type".into()),
                 }
             }
@@ -182,7 +200,7 @@ macro_rules! wire_plain {
                     Codec::Bytes | Codec::BytesRefVec | Codec::BytesBox => Ok(Vec::from(self)),
                     Codec::BytesVec => Ok(Vec::from(self.clone())),
                     Codec::Bare => serde_bare::to_vec(self).map_err(e),
-                    Codec::Json => serde_json::to_vec(self).map_err(e),
+                    Codec::Json | Codec::JsonReader | Codec::JsonValue => json_enc(c, self),
                     _ => Err("facade: codec not offered by this type".into()),
                 }
             }
@@ -203,7 +221,7 @@ impl Wire for SecretKeyEnum {
             Codec::BytesRefVec => Self::try_from(&b.to_vec()).map_err(e),
             Codec::BytesBox => Self::try_from(b.to_vec().into_boxed_slice()).map_err(e),
             Codec::Bare => serde_bare::from_slice(b).map_err(e),
-            Codec::Json => serde_json::from_slice(b).map_err(e),
+            Codec::Json | Codec::JsonReader | Codec::JsonValue => json_dec(c, b),
             Codec::Be => Option::from(Self::from_be_bytes(b)).ok_or_else(|| "from_be_bytes: none".to_string()),
             Codec::Le => Option::from(Self::from_le_bytes(b)).ok_or_else(|| "from_le_bytes: none".to_string()),
         }
@@ -213,7 +231,7 @@ impl Wire for SecretKeyEnum {
             Codec::Bytes | Codec::BytesRefVec | Codec::BytesBox => Ok(Vec::from(self)),
             Codec::BytesVec => Ok(Vec::from(self.clone())),
             Codec::Bare => serde_bare::to_vec(self).map_err(e),
-            Codec::Json => serde_json::to_vec(self).map_err(e),
+            Codec::Json | Codec::JsonReader | Codec::JsonValue => json_enc(c, self),
             Codec::Be => Ok(self.to_be_bytes()),
             Codec::Le => Ok(self.to_le_bytes()),
         }
@@ -233,7 +251,7 @@ impl Wire for SignatureSchemes {
                 _ => Err("bad length".into()),
             },
             Codec::Bare => serde_bare::from_slice(b).map_err(e),
-            Codec::Json => serde_json::from_slice(b).map_err(e),
+            Codec::Json | Codec::JsonReader | Codec::JsonValue => json_dec(c, b),
             _ => Err("facade: codec not offered by this type".into()),
         }
     }
@@ -241,7 +259,7 @@ impl Wire for SignatureSchemes {
         match c {
             Codec::Bytes => Ok(vec![*self as u8]),
             Codec::Bare => serde_bare::to_vec(self).map_err(e),
-            Codec::Json => serde_json::to_vec(self).map_err(e),
+            Codec::Json | Codec::JsonReader | Codec::JsonValue => json_enc(c, self),
             _ => Err("facade: codec not offered by this type".into()),
         }
     }
@@ -261,7 +279,7 @@ impl Wire for Bls12381 {
                 _ => Err("bad length".into()),
             },
             Codec::Bare => serde_bare::from_slice(b).map_err(e),
-            Codec::Json => serde_json::from_slice(b).map_err(e),
+            Codec::Json | Codec::JsonReader | Codec::JsonValue => json_dec(c, b),
             _ => Err("facade: codec not offered by this type".into()),
         }
     }
@@ -269,7 +287,7 @@ impl Wire for Bls12381 {
         match c {
             Codec::Bytes => Ok(vec![u8::from(self)]),
             Codec::Bare => serde_bare::to_vec(self).map_err(e),
-            Codec::Json => serde_json::to_vec(self).map_err(e),
+            Codec::Json | Codec::JsonReader | Codec::JsonValue => json_enc(c, self),
             _ => Err("facade: codec not offered by this type".into()),
         }
     }
